@@ -124,6 +124,16 @@ class MemTransport(asyncio.Transport):
             self.protocol.connection_lost(exc)
 
     # -- the wire
+    def reset(self):
+        """the socket is closed with unread data in its receive buffer (process exit): the peer sees a connection reset, not an
+        end of file (selector_events: recv() fails with ECONNRESET -> _fatal_error -> connection_lost(exc))"""
+        if self.closing:
+            return
+        self.closing = True
+        self.inflight.append(('rst',))
+        self._loop.wire_changed(self)
+        self._loop.call_soon(self._lost, None)
+
     def deliver_head(self):
         item = self.inflight.popleft()
         p = self.peer
@@ -131,6 +141,9 @@ class MemTransport(asyncio.Transport):
             return
         if item[0] == 'data':
             p.protocol.data_received(item[1])
+        elif item[0] == 'rst':
+            p.closing = True
+            p._lost(ConnectionResetError(104, 'Connection reset by peer'))
         else:
             keep_open = p.protocol.eof_received()
             if not keep_open:
@@ -331,9 +344,12 @@ class Endpoint:
         """mosaik has written a stop request to this connection"""
         return self.t_mosaik.stop_written
 
-    def die(self):
-        """the process exits: the operating system closes the socket"""
-        self.t_sim.close()
+    def die(self, reset=False):
+        """the process exits: the operating system closes the socket (reset: with unread data in its receive buffer)"""
+        if reset:
+            self.t_sim.reset()
+        else:
+            self.t_sim.close()
         if self.channel is not None:
             self.channel._receiver_task.cancel()
 
